@@ -1,6 +1,6 @@
 """Coordinator tool: apply each confirmed seeded mutation to /repo, run the property's quick check,
 undo it, and record the verdict in /verif/seeded/<id>/meta.json (detected_by).  Sequential on purpose."""
-import json, os, subprocess, sys, glob, re, time
+import json, os, subprocess, sys, glob, re, time, shutil
 names = sys.argv[1:] or sorted(os.path.basename(d.rstrip("/")) for d in glob.glob("/verif/seeded/*/"))
 for name in names:
     d = f"/verif/seeded/{name}"
@@ -11,6 +11,11 @@ for name in names:
     if r.returncode != 0:
         print(name, "patch does not apply to /repo", r.stderr[-200:]); continue
     t0 = time.time()
+    # the evidence files committed under /verif/evidence must come from runs on the unchanged tree: keep them aside
+    ev = f"/verif/evidence/{pid}.json"
+    bak = ev + ".keep"
+    if os.path.exists(ev):
+        shutil.copy(ev, bak)
     try:
         p = subprocess.run(f"./check {pid} --tier quick", shell=True, cwd="/verif", capture_output=True, text=True, timeout=1500)
         out, rc = p.stdout + p.stderr, p.returncode
@@ -18,6 +23,8 @@ for name in names:
         out, rc = "TIMEOUT", 124
     finally:
         subprocess.run("git -C /repo checkout -- .", shell=True)
+        if os.path.exists(bak):
+            shutil.move(bak, ev)
     viol = re.findall(r"VIOLATION property=\S+ replay=(\S+)( no-failing-input-found)?", out)
     sigs = []
     for path, nf in viol:
